@@ -62,6 +62,8 @@ def _fresh(fn, name):
 
 
 def run(ck, m):
+    from rules.common import rule_memo_safety
+    rule_memo_safety(ck, m, "MEMO", "C11")          # first: a memoised helper also hides the code it wraps from the rules below
     # ---- R1 ----------------------------------------------------------------------------
     n1 = 0
     for rel, q, fn in m.functions():
@@ -301,8 +303,6 @@ def run(ck, m):
     allowed = {f"{CM}::BaseImage.size#2", f"{CM}::BaseImage.set_size", "widget/_urwid.py::UrwidImage.render", f"{CM}::BaseImage.size"}
     ck.ob("R6", rn, writers <= allowed, f"`_size` is written in {sorted(writers - allowed)}; only the size setter, set_size and (documented) UrwidImage.render may", stmt="writers of _size")
 
-    from rules.common import rule_memo_safety
-    rule_memo_safety(ck, m, "MEMO", "C11")
 
 
 def _anc(n):
